@@ -68,6 +68,7 @@ type VC struct {
 	witness map[string]string // human name -> term (entry-state values to report in models)
 	declared map[string]bool
 	lockTerms []string
+	witnessSort map[string]string
 	iters map[ssa.Value]*mapIter
 	lastIter *mapIter
 	refAxDone map[string]bool
@@ -101,7 +102,7 @@ func newVC0(eng *Engine, fn *ssa.Function, fc *FuncContract) *VC {
 		svSort: map[string]string{}, svInit: map[string]string{},
 		strlit: map[string]string{}, assum: map[string]bool{},
 		ordinals: map[string]int{}, modCache: map[*ssa.Function]map[string]bool{},
-		witness: map[string]string{}, autoLoops: map[loopKey]*LoopContract{}, iters: map[ssa.Value]*mapIter{},
+		witness: map[string]string{}, witnessSort: map[string]string{}, autoLoops: map[loopKey]*LoopContract{}, iters: map[ssa.Value]*mapIter{},
 	}
 }
 
